@@ -276,15 +276,17 @@ def skeleton_cases(rng, n, tier, res, problems):
             lines.append(f"applymonths {C.ilist(month(dO))} {C.ilist(month(dH))} {C.ilist(month(dF))} {C.ilist(o)} {C.ilist(h)} {C.ilist(f)}")
         else:
             # year windows only (no seasonal window): long future series over several years
-            yrs = rng.randint(1, 12)
+            # even and odd lengths / steps alike (an even one is bumped to the next odd number by the window object,
+            # while the debiaser keeps the raw attribute), and spans of several steps
+            YL, YS = rng.choice([(17, 9), (3, 1), (1, 1), (5, 3), (17, 8), (16, 8), (4, 2), (6, 6), (9, 4),
+                                 (rng.randint(1, 12), rng.randint(1, 6)), (rng.randint(1, 12), 2 * rng.randint(1, 4))])
+            if YS > YL:
+                YL, YS = YS, YL
+            yrs = rng.choice([rng.randint(1, 12), rng.randint(2, 5) * (YS + 1) + rng.randint(0, YS)])
             start = datetime.date(rng.randint(1960, 2080), rng.randint(1, 12), rng.randint(1, 28))
-            dF = dates_from(start, rng.randint(20, 40) * yrs)[:: rng.choice([1, 1, 7])]
             # spread over years: take every ~10th day
             dF = dates_from(start, 366 * yrs)[:: rng.randint(5, 23)]
             f = nprs.randint(-9, 10, dF.size).astype(float)
-            YL, YS = rng.choice([(17, 9), (3, 1), (1, 1), (5, 3), (rng.randint(1, 12), rng.randint(1, 6))])
-            if YS > YL:
-                YL, YS = YS, YL
             case.update({"YL": YL, "YS": YS, "nF": int(dF.size), "startF": str(dF[0])})
             rawF = dF
             dO, dH, dF = present(rawO, enc), present(rawH, enc), present(rawF, enc)
@@ -346,8 +348,9 @@ def debiasers_finite(rng, n, res, problems):
         dFull2 = dates_from(datetime.date(year0 - 10, 1, 1), 365 * 4 + 1)
         S = rng.choice([1, 7, 15, 31, 61, rng.randint(2, 91)])
         L = max(S, 15, rng.choice([31, 61, 91, S]))  # >= 15 samples per window: enough to fit a distribution
-        ykw = dict(running_window_over_years_of_cm_future_length=rng.choice([17, 3, 1]),
-                   running_window_over_years_of_cm_future_step_length=1)
+        ysl = rng.choice([1, 1, 2, 4])
+        ykw = dict(running_window_over_years_of_cm_future_length=max(ysl, rng.choice([17, 3, 1, 4])),
+                   running_window_over_years_of_cm_future_step_length=ysl)
         debs = window_debiasers(L, S, ykw)
         names = list(debs) if k % 3 == 0 else rng.sample(list(debs), 3)
         for name in names:
